@@ -176,7 +176,7 @@ class Axis(GetSetDelAttrMixin, AbstractAxis):
         >>> a.values
         array(['a', 2.0, 3.0], dtype=object)
         """
-        self._values = _maybe_cast_type(self._values, value)
+        self._values = _maybe_cast_type(self.values, value)
 
         # now can proceed to asignment
         self._values[item] = value
@@ -200,7 +200,7 @@ class Axis(GetSetDelAttrMixin, AbstractAxis):
         -------
         subaxis : Axis instance
         """
-        values = self._values.take(indices, mode=mode)
+        values = self.values.take(indices, mode=mode)
         return Axis(values, self.name, tol=self.tol, **self.attrs)
 
 
